@@ -2,6 +2,7 @@ package mon
 
 import (
 	"fmt"
+	"math/big"
 	"strings"
 
 	sdkmath "cosmossdk.io/math"
@@ -18,13 +19,13 @@ type C01 struct {
 	S    *Stats
 	Hist string
 	// cumulative acknowledged deposits / withdrawals per asset
-	dep, wdr map[string]sdkmath.Int
-	genesis  map[string]sdkmath.Int // StakingTotalAmount at start
+	dep, wdr map[string]Z
+	genesis  map[string]Z // StakingTotalAmount at start
 	started  bool
 }
 
 func NewC01(hist string) *C01 {
-	return &C01{S: NewStats("C01"), Hist: hist, dep: map[string]sdkmath.Int{}, wdr: map[string]sdkmath.Int{}, genesis: map[string]sdkmath.Int{}}
+	return &C01{S: NewStats("C01"), Hist: hist, dep: map[string]Z{}, wdr: map[string]Z{}, genesis: map[string]Z{}}
 }
 
 func assetOfKey(k string, idx int) string {
@@ -36,17 +37,13 @@ func assetOfKey(k string, idx int) string {
 }
 
 // SumS computes S(a) for every asset: withdrawable + pools + owed by pending undelegations.
-func SumS(l *sim.Ledger) map[string]sdkmath.Int {
-	out := map[string]sdkmath.Int{}
+func SumS(l *sim.Ledger) map[string]Z {
+	out := map[string]Z{}
 	add := func(a string, v sdkmath.Int) {
 		if v.IsNil() {
 			return
 		}
-		if cur, ok := out[a]; ok {
-			out[a] = cur.Add(v)
-		} else {
-			out[a] = v
-		}
+		out[a] = zget(out, a).Add(ZI(v))
 	}
 	for k, v := range l.Staker {
 		add(assetOfKey(k, 1), v.WithdrawableAmount)
@@ -96,7 +93,7 @@ func (m *C01) OnStep(w *ops.World, st *ops.Step) {
 	if !m.started {
 		m.started = true
 		for a, info := range pre.Asset {
-			m.genesis[a] = info.StakingTotalAmount
+			m.genesis[a] = ZI(info.StakingTotalAmount)
 		}
 		m.checkStatic(w, st, pre)
 	}
@@ -117,20 +114,20 @@ func (m *C01) OnStep(w *ops.World, st *ops.Step) {
 		opAsset = st.Asset.ID
 	}
 	newSlash := NewSlashInfos(st.Pre.Raw, st.Post.Raw)
-	slashed := map[string]sdkmath.Int{}
+	slashed := map[string]Z{}
 	for _, info := range newSlash {
 		if info.ExecutionInfo == nil {
 			continue
 		}
 		for _, p := range info.ExecutionInfo.SlashAssetsPool {
-			slashed[p.AssetID] = get(slashed, p.AssetID).Add(p.Amount)
+			slashed[p.AssetID] = zget(slashed, p.AssetID).Add(ZI(p.Amount))
 		}
 		for _, u := range info.ExecutionInfo.SlashUndelegations {
-			slashed[u.AssetID] = get(slashed, u.AssetID).Add(u.Amount)
+			slashed[u.AssetID] = zget(slashed, u.AssetID).Add(ZI(u.Amount))
 		}
 	}
 	for a := range assets {
-		d := get(sPost, a).Sub(get(sPre, a))
+		d := zget(sPost, a).Sub(zget(sPre, a))
 		m.S.Eval("delta")
 		cls := fmt.Sprintf("%s|%s|ack=%v|sign=%d", st.Kind, assetKind(w, a), st.Ack, d.Sign())
 		if !d.IsZero() {
@@ -149,7 +146,7 @@ func (m *C01) OnStep(w *ops.World, st *ops.Step) {
 		switch st.Kind {
 		case "deposit":
 			if a == opAsset && !native {
-				if !d.Equal(st.Amount) {
+				if !d.Equal(ZI(st.Amount)) {
 					bad("deposit of %s", st.Amount)
 				}
 			} else if !d.IsZero() {
@@ -157,7 +154,7 @@ func (m *C01) OnStep(w *ops.World, st *ops.Step) {
 			}
 		case "withdraw":
 			if a == opAsset && !native {
-				if !d.Equal(st.Amount.Neg()) {
+				if !d.Equal(ZI(st.Amount).Neg()) {
 					bad("withdraw of %s", st.Amount)
 				}
 			} else if !d.IsZero() {
@@ -167,7 +164,7 @@ func (m *C01) OnStep(w *ops.World, st *ops.Step) {
 			if native && a == opAsset {
 				// native token enters the ledger from the staker's bank balance
 				tot := totalNative(st)
-				if !d.Equal(tot) {
+				if !d.Equal(ZI(tot)) {
 					bad("native delegation of %s", tot)
 				}
 			} else if !d.IsZero() {
@@ -176,10 +173,10 @@ func (m *C01) OnStep(w *ops.World, st *ops.Step) {
 		case "nst_update":
 			if a == opAsset {
 				if st.Amount.IsPositive() {
-					if !d.Equal(st.Amount) {
+					if !d.Equal(ZI(st.Amount)) {
 						bad("positive NST adjustment %s", st.Amount)
 					}
-				} else if d.IsPositive() || d.LT(st.Amount) {
+				} else if d.IsPositive() || d.LT(ZI(st.Amount)) {
 					bad("negative NST adjustment %s out of [d,0]", st.Amount)
 				}
 			} else if !d.IsZero() {
@@ -189,14 +186,14 @@ func (m *C01) OnStep(w *ops.World, st *ops.Step) {
 			if d.IsPositive() {
 				bad("slash/begin-block increased the sum")
 			}
-			if !d.Neg().Equal(get(slashed, a)) {
-				bad("reduction differs from recorded slash executions (%s)", get(slashed, a))
+			if !d.Neg().Equal(zget(slashed, a)) {
+				bad("reduction differs from recorded slash executions (%s)", zget(slashed, a))
 			}
 		case "end_block":
 			if native {
 				// releases pay out of the ledger into bank balances
 				paid := nativeReleased(pre, post, a)
-				if !d.Neg().Equal(paid) {
+				if !d.Neg().Equal(ZI(paid)) {
 					bad("native release paid %s", paid)
 				}
 			} else if !d.IsZero() {
@@ -211,9 +208,9 @@ func (m *C01) OnStep(w *ops.World, st *ops.Step) {
 	if st.Ack && opAsset != "" && opAsset != w.Native.ID {
 		switch st.Kind {
 		case "deposit":
-			m.dep[opAsset] = get(m.dep, opAsset).Add(st.Amount)
+			m.dep[opAsset] = zget(m.dep, opAsset).Add(ZI(st.Amount))
 		case "withdraw":
-			m.wdr[opAsset] = get(m.wdr, opAsset).Add(st.Amount)
+			m.wdr[opAsset] = zget(m.wdr, opAsset).Add(ZI(st.Amount))
 		}
 	}
 	m.checkStatic(w, st, post)
@@ -283,28 +280,28 @@ func (m *C01) checkStatic(w *ops.World, st *ops.Step, l *sim.Ledger) {
 	}
 	for a, info := range l.Asset {
 		m.S.Eval("published-total")
-		want := get(m.genesis, a).Add(get(m.dep, a)).Sub(get(m.wdr, a))
+		want := zget(m.genesis, a).Add(zget(m.dep, a)).Sub(zget(m.wdr, a))
 		if _, ok := m.genesis[a]; !ok {
 			continue // asset registered later: not tracked from its start
 		}
-		if !info.StakingTotalAmount.Equal(want) {
+		if !ZI(info.StakingTotalAmount).Equal(want) {
 			m.S.Violate("published-total", assetKind(w, a), m.Hist, st.I, "asset %s StakingTotalAmount=%s, deposits-withdrawals=%s after %s %v", a, info.StakingTotalAmount, want, st.Kind, st.P)
 		}
 	}
 	// escrow
-	need := sdkmath.ZeroInt()
+	need := Z{}
 	for k, v := range l.Operator {
 		if assetOfKey(k, 1) == w.Native.ID {
-			need = need.Add(v.TotalAmount)
+			need = need.Add(ZI(v.TotalAmount))
 		}
 	}
 	for _, r := range l.Undel {
 		if r.AssetID == w.Native.ID {
-			need = need.Add(r.ActualCompletedAmount)
+			need = need.Add(ZI(r.ActualCompletedAmount))
 		}
 	}
 	m.S.Eval("escrow")
-	if l.Escrow.LT(need) {
+	if ZI(l.Escrow).LT(need) {
 		m.S.Violate("escrow", "native", m.Hist, st.I, "delegated_pool holds %s < pools+pending %s after %s", l.Escrow, need, st.Kind)
 	}
 	if need.IsPositive() {
@@ -314,3 +311,29 @@ func (m *C01) checkStatic(w *ops.World, st *ops.Step, l *sim.Ledger) {
 		m.S.Violate("unparsable", "store", m.Hist, st.I, "%s", e)
 	}
 }
+
+// Z is an unbounded integer (the monitors' own sums must not overflow where the code's 256-bit Int does).
+type Z struct{ v *big.Int }
+
+func ZI(i sdkmath.Int) Z {
+	if i.IsNil() {
+		return Z{}
+	}
+	return Z{new(big.Int).Set(i.BigInt())}
+}
+func (a Z) b() *big.Int {
+	if a.v == nil {
+		return new(big.Int)
+	}
+	return a.v
+}
+func (a Z) Add(o Z) Z        { return Z{new(big.Int).Add(a.b(), o.b())} }
+func (a Z) Sub(o Z) Z        { return Z{new(big.Int).Sub(a.b(), o.b())} }
+func (a Z) Neg() Z           { return Z{new(big.Int).Neg(a.b())} }
+func (a Z) Equal(o Z) bool   { return a.b().Cmp(o.b()) == 0 }
+func (a Z) LT(o Z) bool      { return a.b().Cmp(o.b()) < 0 }
+func (a Z) IsZero() bool     { return a.b().Sign() == 0 }
+func (a Z) IsPositive() bool { return a.b().Sign() > 0 }
+func (a Z) Sign() int        { return a.b().Sign() }
+func (a Z) String() string   { return a.b().String() }
+func zget(m map[string]Z, k string) Z { return m[k] }
